@@ -74,9 +74,12 @@ structure Scn where
 
 def Scn.nOld (s : Scn) : Nat := s.oldMeta.length
 
-/-- delta builds on compound shards are rejected by `Finish` before any rename; sidecar flag only with compound -/
+/-- delta builds on compound shards are rejected by `Finish` before any rename; sidecar flag only with compound;
+    a run always writes at least one shard unless it is a delta run on an existing index
+    (`Builder.flush`: `if len(todo) == 0 && hasShard { return nil }`) -/
 def Scn.WF (s : Scn) : Bool :=
-  (!s.compound || (s.oldMeta.isEmpty && !s.delta)) && (s.compound || !s.compMeta)
+  (!s.compound || (s.oldMeta.isEmpty && !s.delta)) && (s.compound || !s.compMeta) &&
+  (decide (1 ≤ s.nNew) || (s.delta && decide (1 ≤ s.nOld)))
 
 /-- first shard number of the run: `NewBuilder` sets `nextShardNum = len(FindAllShards())` for delta builds -/
 def Scn.base (s : Scn) : Nat := if s.delta then s.nOld else 0
@@ -106,7 +109,7 @@ def artifacts (s : Scn) : List (Path × Path) :=
 def toDelete0 (s : Scn) : List Path :=
   if s.delta then []
   else if s.compound then Path.cshard :: (if s.compMeta then [Path.cmeta] else [])
-  else (List.range s.nOld).flatMap (fun i => Path.shard i :: (if s.oldMeta.getD i false then [Path.side i] else []))
+  else (List.range s.nOld).map Path.shard ++ ((List.range s.nOld).filter fun i => s.oldMeta.getD i false).map Path.side
 
 /-- index of the temp file `SetTombstone` creates -/
 def Scn.tombTmp (s : Scn) : Nat := s.nNew + s.nSide
